@@ -103,7 +103,11 @@ def main(prop=PROP, direction=("ser",), kinds=KINDS, title="serializers", extra=
     cpp_bounded(run, prop, direction, args)
     if prop in ("C01", "C02"):
         py_bounded(run, prop, direction, args)
-    PP.template_error_guards(run, tuple(t for d, t in (("ser", "serialization.j2"), ("des", "deserialization.j2")) if d in direction))
+    tpls = tuple(t for d, t in (("ser", "serialization.j2"), ("des", "deserialization.j2")) if d in direction)
+    PP.template_error_guards(run, tpls)
+    if prop in ("C01", "C02"):  # the same template-level obligation for the codecs that are not under contract
+        PP.template_error_guards(run, tpls, "cpp")
+        PP.template_error_guards(run, tpls, "py")
     if extra is not None:
         extra(run)
     run.notes["obligations_generated_all_kinds"] = n_all
